@@ -23,12 +23,17 @@ C03.flag    ParsedName's `compressed` flag is false only for names stored
             next seek sets it; it is cleared only while no label was counted.
 C03.bounds  Name::slice / range hand out a RelativeName only for ranges that
             end before the root label (open-ended ranges are refused).
+C03.cut     a name's octets are truncated in place only at a label boundary:
+            behind check_index() for that very index, behind a label-wise
+            ends_with(base) with the index len - base.compose_len(), or by
+            the root label of an absolute name (len - 1).
 C03.esc     Label's Display prints raw only octets the presentation-format
             reader accepts unescaped (finite decision tree over one octet).
 """
 import re
 
 from mirlib import BranchFacts, strip, deep_strip, show, walk, const_value
+from rulelib import dominating_edges
 from rulelib import (
     bool_facts, canon_nobb, cyclic_blocks, facts_at, fmt_path, must_pass, relations, return_assignments,
     succeeded_calls, _norm_fact,
@@ -51,6 +56,8 @@ def run(ctx):
     )
     rule_bld(ctx, F)
     rule_bld_charstr(ctx, F)
+    rule_bld_sub(ctx, F)
+    rule_cut(ctx, F)
     rule_restore(ctx, F)
     rule_cap(ctx, F)
     rule_forge(ctx, F)
@@ -62,6 +69,7 @@ def run(ctx):
     import c06
     c06.rule_label(ctx, F)   # strings given to the zone-file scanner: labels of 1..=63 octets
     c06.rule_empty(ctx, F)   # ... and no empty label inside a scanned name
+    c06.rule_escread(ctx, F)  # what Display writes as `\\X` both escape readers accept (text round trip of names)
 
 
 # ---------------------------------------------------------------------------
@@ -155,6 +163,12 @@ def path_facts(b, F, conds):
             if not isinstance(o, bool):
                 continue
             s = deep_strip(subj)
+            if s[0] == "call" and re.search(r"<impl \[(T|u8)\]>::is_empty$", s[1] or "") and s[3]:
+                a0 = deep_strip(s[3][0])
+                if a0[0] == "arg" and a0[1] >= 2:
+                    # !is_empty(n)  =>  1 - n <= 0 ;  is_empty(n)  =>  n <= 0
+                    out.append({"n": -1, 1: 1} if o is False else {"n": 1})
+                continue
             if s[0] != "bin" or s[1] not in ("Lt", "Le", "Gt", "Ge"):
                 continue
             op, x, y = s[1], s[2], s[3]
@@ -265,10 +279,66 @@ def rule_bld(ctx, F):
                     g = {1: -(LABEL_MAX + 1)}
                     for s, v in total.items():
                         g[s] = g.get(s, 0) + v
+                if name == "append_slice" and head_some is False and "n" in total:
+                    # a label that is started gets at least one octet: 1 - n <= 0
+                    ctx.ob(R, b, "no empty label: " + site, implies(facts, {"n": -1, 1: 1}),
+                           "NameBuilder::append_slice starts a new label (length octet written, head set) on a path on which the "
+                           "slice may be empty: append_label(b\"\") between two labels leaves a zero-length label -- a root label in "
+                           "the middle of the name", detail="facts: %s" % [_fmt(f) for f in facts])
                 okl = implies(facts, g)
                 ctx.ob(R, b, "label length: " + site, okl,
                        "NameBuilder::%s: the guards on this path do not imply a label payload <= 63" % name,
                        detail="facts: %s" % [_fmt(f) for f in facts])
+
+
+def rule_bld_sub(ctx, F):
+    """Every subtraction in the appending methods of NameBuilder stays non-negative under the builder's invariants (head + 1 <=
+    len, payload of the label under construction <= 63, len <= 254) and the guards taken so far: a subtraction that can wrap
+    turns the guard it feeds into `anything goes` in release builds (and is a panic in debug builds)."""
+    R = "C03.bld"
+    for name in ("push", "append_slice", "end_label", "append_label"):
+        bs = F.find_bodies("^" + re.escape(NB + name) + r"(::<.*>)?$")
+        if len(bs) != 1:
+            continue
+        b = bs[0]
+        k = 0
+        for bi in sorted(b.reachable_blocks()):
+            tm = b.blocks[bi]["t"]
+            if tm["k"] != "assert" or not tm.get("msg") or tm["msg"][0] != "overflow" or tm["msg"][1] != "Sub":
+                continue
+            k += 1
+            a = linexp(b.term_of_operand(tm["msg"][2]), b)
+            c = linexp(b.term_of_operand(tm["msg"][3]), b)
+            if a is None or c is None:
+                ctx.undecided_item(R, b.path, "subtraction #%d: operands not linear in (len, head, n)" % k)
+                continue
+            # goal: c - a <= 0
+            goal = dict(c)
+            for s, v in a.items():
+                goal[s] = goal.get(s, 0) - v
+            goal = {s: v for s, v in goal.items() if v != 0 or s == 1}
+            # facts: dominating guards + invariants
+            conds = {}
+            bf = BranchFacts(b, F)
+            for sw, lab in dominating_edges(b, bi):
+                conds[sw] = lab
+            facts = path_facts(b, F, conds)
+            facts.append({"L": 1, 1: -REL_MAX})            # len <= 254
+            in_label = "H" in goal or any("H" in f for f in facts)
+            if in_label:
+                facts.append({"H": 1, "L": -1, 1: 1})      # head + 1 <= len
+                facts.append({"L": 1, "H": -1, 1: -(LABEL_MAX + 1)})   # len - head - 1 <= 63
+            ok = implies(facts, goal)
+            ctx.ob(R, b, "subtraction #%d cannot wrap" % k, ok,
+                   "NameBuilder::%s computes `%s - %s`, which is negative for a state the builder can be in (a label under "
+                   "construction that already holds 63 octets makes len - head = 64): a panic in debug builds; in release builds "
+                   "the difference wraps, the length guard it feeds lets everything through and a 64-octet label is written -- an "
+                   "invalid name from safe code (and a 63-octet label built in two steps is refused)"
+                   % (name, _fmt_side(a), _fmt_side(c)), b.where(bi), detail="facts: %s" % [_fmt(f) for f in facts])
+
+
+def _fmt_side(e):
+    return " + ".join(("%s" % v) if s == 1 else ("%s%s" % ("" if v == 1 else v, {"L": "len", "H": "head", "n": "n"}.get(s, s))) for s, v in sorted(e.items(), key=lambda x: str(x[0])) if v != 0) or "0"
 
 
 def rule_bld_charstr(ctx, F):
@@ -1233,3 +1303,48 @@ def run_thorough(ctx):
     # type-level part of the property: compile-fail witnesses (rules/witness.py)
     import witness
     witness.run(ctx, "C03")
+
+
+# ---------------------------------------------------------------------------
+# C03.cut: in-place truncation only at label boundaries
+# ---------------------------------------------------------------------------
+
+def rule_cut(ctx, F):
+    R = "C03.cut"
+    ctx.floor(R, 4)
+    n = 0
+    for p, b in sorted(F.bodies.items()):
+        if not re.match(r"^<?base::name::(absolute|relative|uncertain|chain)::", p) or "::test" in p:
+            continue
+        for bb, tt in b.calls():
+            if not re.search(r"Truncate::truncate$", tt["fn"] or ""):
+                continue
+            recv = deep_strip(b.term_of_operand(tt["args"][0]))
+            if not (recv[0] == "field" and recv[2] in ("0", 0)):
+                continue
+            n += 1
+            idx = deep_strip(b.term_of_operand(tt["args"][1]))
+            why = None
+            # (a) check_index(idx) dominates
+            for cb, ct in b.calls():
+                if re.search(r"::check_index$", ct["fn"] or "") and b.dominates(cb, bb) and len(ct["args"]) >= 2 and \
+                        deep_strip(b.term_of_operand(ct["args"][1])) == idx:
+                    why = "check_index"
+            # (b) label-wise suffix test, cut at len - compose_len(base)
+            if why is None and idx[0] == "bin" and idx[1] in ("Sub", "SubUnchecked"):
+                rhs = deep_strip(idx[3])
+                lhs = deep_strip(idx[2])
+                if rhs[0] == "call" and (rhs[1] or "").endswith("::compose_len") and lhs[0] == "call" and (lhs[1] or "").endswith("::len"):
+                    base = deep_strip(rhs[3][0])
+                    for tm, v in bool_facts(b, bb, F):
+                        tm = deep_strip(tm)
+                        if v is True and tm[0] == "call" and re.search(r"::ends_with$", tm[1] or "") and len(tm[3]) == 2 and deep_strip(tm[3][1]) == base:
+                            why = "ends_with"
+                # (c) the root label of an absolute name
+                if why is None and const_value(rhs) == 1 and lhs[0] == "call" and (lhs[1] or "").endswith("::len") and "absolute::Name" in p:
+                    why = "root label"
+            ctx.ob(R, b, "truncation at a label boundary (%s)" % (why or "unjustified"), why is not None,
+                   "%s truncates the name's octets at an index that is not known to be a label boundary (no check_index for it, no "
+                   "label-wise ends_with for the suffix removed): an octet-wise match can end inside a label, and what is left is "
+                   "a label cut short -- an invalid RelativeName from safe code" % p.split("::")[-1], b.where(bb))
+    ctx.call_sites += n
